@@ -5,5 +5,7 @@ package simrt
 // RaceBuild reports whether the binary was built with -race.
 const RaceBuild = false
 
-func raceDisable() {}
-func raceEnable()  {}
+func raceDisable()             {}
+func raceEnable()              {}
+func raceReleaseToRoot(s *Sim) {}
+func raceAcquireAtRoot(s *Sim) {}
